@@ -91,6 +91,26 @@ def sweep(ctx, rng, limit):
                 other = None if e is None or af not in e else "%s:{%s}" % (kind, e[af])
             if other is not None and not allows_path(p):
                 extra.append((name, p, sv, "extend-path-respelled", other + path + ".zzz_undeclared", setp(base, p, other + path + ".zzz_undeclared")))
+            # the same object reached through an entity of ANOTHER kind, with the path that kind takes: an object promise
+            # position given `action:A.object_promise<path>` (A acts on that promise), an action operand given
+            # `object_promise:P<path>`: both resolve to the type the original did, and both are of the wrong kind
+            if e is not None and p and p[-1] != "to_ref":
+                def same(ref, kind_, ent):
+                    mm = REF.match(ref) if isinstance(ref, str) else None
+                    if not mm or mm.group(1) or mm.group(2) != kind_ or mm.group(4):
+                        return False
+                    return (mm.group(3)[1:-1] == str(ent.get(coll_of[kind_][1]))) if mm.group(3).startswith("{") else (mm.group(3) == str(ent.get("id")))
+                if kind == "object_promise":
+                    for a in [a for a in (base.get("actions") or []) if isinstance(a, dict) and same(a.get("object_promise"), "object_promise", e)][:2]:
+                        for spelled in (["action:%s" % a["id"]] if "id" in a else []) + (["action:{%s}" % a["name"]] if "name" in a else []):
+                            nv = spelled + ".object_promise" + path
+                            extra.append((name, p, sv, "through-action", nv, setp(base, p, nv)))
+                if kind == "action" and path.startswith(".object_promise"):
+                    pr = next((x for x in (base.get("object_promises") or []) if isinstance(x, dict) and same(e.get("object_promise"), "object_promise", x)), None)
+                    if pr is not None:
+                        for spelled in (["object_promise:%s" % pr["id"]] if "id" in pr else []) + (["object_promise:{%s}" % pr["name"]] if "name" in pr else []):
+                            nv = spelled + path[len(".object_promise"):]
+                            extra.append((name, p, sv, "through-promise", nv, setp(base, p, nv)))
 
         def dicts(x, pp=()):
             if isinstance(x, dict):
@@ -108,8 +128,15 @@ def sweep(ctx, rng, limit):
     cases += extra
     if len(cases) > limit:
         resp = [c for c in extra if c[3] == "extend-path-respelled"]
-        lits = [c for c in extra if c[3] != "extend-path-respelled"]
-        keep = rng.sample(resp, min(len(resp), limit // 3)) + rng.sample(lits, min(len(lits), limit // 8))
+        thru = [c for c in extra if c[3].startswith("through-")]
+        lits = [c for c in extra if c[3] != "extend-path-respelled" and c not in thru]
+        # one through-mutant per (file-independent) position first, then a sample
+        first = {}
+        for c in thru:
+            first.setdefault((c[3], tuple(k for k in c[1] if isinstance(k, str))), c)
+        rest = [c for c in thru if c not in first.values()]
+        thru_keep = list(first.values()) + rng.sample(rest, min(len(rest), limit // 8))
+        keep = rng.sample(resp, min(len(resp), limit // 3)) + rng.sample(lits, min(len(lits), limit // 8)) + thru_keep
         cases = rng.sample([c for c in cases if c not in extra], limit - len(keep)) + keep
     res = pool.validate_many([c[5] for c in cases])
     pool.close()
@@ -150,3 +177,12 @@ def run(ctx):
     engine.import_family(ctx, random.Random(ctx.seed + 3), 24 * scale, 24 * scale,
                          only=("connection_target_missing", "connection_target_native", "connection_target_in_other_import", "add_dependency_not_native_checkpoint", "add_dependency_names_a_generated_id"),
                          what="T3 correspondence: references across import files, whole validator vs Coq model (Model/Imports.v)")
+    # references inside aggregation pipelines: filter operands at every clause position (also behind nested condition
+    # groups), application and traversal sources
+    import pipes
+    prng = random.Random(ctx.seed + 7)
+    pitems = (pipes.make_valid_items_p(prng, 6 * scale, variants=1, threads=False)
+              + pipes.make_mutant_items_p(prng, 20 * scale, ("C01P",), threads=False)
+              + pipes.make_mutant_items_p(prng, 10 * scale, ("C01P",), threads=True))
+    engine.run_items(ctx, pitems, coq_file_fn=pipes.coq_cases_file_p)
+    engine.report(ctx, pitems, "T3 correspondence: references inside aggregation pipelines, whole validator vs Coq model (Model/PipeRules.v)")
